@@ -26,19 +26,25 @@ var inputs = []int{1, 2, 3}
 type prepared struct {
 	once     sync.Once
 	run      func(int) string
+	inspect  func() string
 	err      error
 	expected map[int]string
+	// expectedInspect is what inspect returns on a freshly built copy
+	expectedInspect string
 }
 
 func (p *prepared) prepare(a Artefact) {
 	p.once.Do(func() {
-		p.run, p.err = a.Build()
+		p.run, p.inspect, p.err = a.Build()
 		if p.err != nil {
 			return
 		}
+		if _, fi, err := a.Build(); err == nil {
+			p.expectedInspect = fi()
+		}
 		p.expected = map[int]string{}
 		for _, in := range inputs {
-			fresh, err := a.Build() // a freshly built copy, run exactly once
+			fresh, _, err := a.Build() // a freshly built copy, run exactly once
 			if err != nil {
 				p.err = err
 				return
@@ -70,7 +76,19 @@ func concurrent(a Artefact, k, bound int) *sched.Scenario {
 					res[i] = p.run(inputs[i])
 				}})
 			}
-			return ds, func(*sched.Exec) string { return strings.Join(res, " ## ") }
+			// one more thread calls the read-only methods of the artefact while the runs go on
+			insp := "not run"
+			ds = append(ds, sched.Driver{Name: "inspect", Body: func() {
+				if p.err == nil {
+					insp = p.inspect()
+				}
+			}})
+			return ds, func(*sched.Exec) string {
+				if insp != p.expectedInspect {
+					return strings.Join(res, " ## ") + " ## inspect differs: " + insp
+				}
+				return strings.Join(res, " ## ")
+			}
 		},
 		Check: func(x *sched.Exec, obs string) (bool, string, string) {
 			if p.err != nil {
@@ -95,7 +113,7 @@ func concurrent(a Artefact, k, bound int) *sched.Scenario {
 	}
 }
 
-// history: all sequences of 3 runs over 3 inputs on ONE compiled artefact; run i must equal a fresh build's single run.
+// history: all 64 sequences of 3 operations {run with input 1, 2 (cancellable context), 3 (deadline), inspect} on ONE compiled artefact; every run must equal a fresh build's single run and every inspection a fresh build's inspection.
 func history(a Artefact) *sched.Scenario {
 	p := &prepared{}
 	return &sched.Scenario{
@@ -112,9 +130,17 @@ func history(a Artefact) *sched.Scenario {
 					result = "build error: " + p.err.Error()
 					return
 				}
-				for h := 0; h < 27; h++ {
-					seq := []int{inputs[h%3], inputs[h/3%3], inputs[h/9%3]}
+				// operations: run with input 1, 2, 3 and 0 = inspect (Disassemble, UsedVars)
+				for h := 0; h < 64; h++ {
+					seq := []int{h % 4, h / 4 % 4, h / 16 % 4}
 					for pos, in := range seq {
+						if in == 0 {
+							if got := p.inspect(); got != p.expectedInspect {
+								result = fmt.Sprintf("history %v position %d: inspect differs from the inspection of a fresh build:\ngot  %q\nwant %q", seq, pos, got, p.expectedInspect)
+								return
+							}
+							continue
+						}
 						got := p.run(in)
 						if got != p.expected[in] {
 							result = fmt.Sprintf("history %v position %d input %d: got %q want %q", seq, pos, in, got, p.expected[in])
@@ -138,7 +164,7 @@ func TestVerif(t *testing.T) {
 	sched.RunCheck(t, &sched.CheckSpec{
 		ID:    "C10",
 		Level: "model_checking",
-		Rule:  "12 compiled artefacts (programs and templates exercising compiled constants, native calls of every shape, package-level initialisation, defer/recover, closures, goroutines, every show context, macros, import/render/extends, Markdown conversion, {%% %%} blocks). (a) 2 (quick) / 3 (thorough) concurrent Runs of ONE artefact with different inputs under the controlled scheduler: all schedules with at most deviation_bound preemptions at instructions that can touch state reachable from the shared artefact or shared host objects (Load, LoadFunc, native/indirect/macro calls, Get/SetVar, MethodValue, Show, Text, Print, defer/recover/panic, channel ops) and at yield points inside the harness' native functions and writer; each run's (output, error, printed text) must equal a single run of a freshly built copy. (b) all 27 sequences of 3 sequential runs over 3 inputs on one artefact. states = distinct (point, enabled set, step) tuples",
+		Rule:  "12 compiled artefacts (programs and templates exercising compiled constants, native calls of every shape, package-level initialisation, defer/recover, closures, goroutines, every show context, macros, import/render/extends, Markdown conversion, {%% %%} blocks). (a) 2 (quick) / 3 (thorough) concurrent Runs of ONE artefact with different inputs under the controlled scheduler: all schedules with at most deviation_bound preemptions at instructions that can touch state reachable from the shared artefact or shared host objects (Load, LoadFunc, native/indirect/macro calls, Get/SetVar, MethodValue, Show, Text, Print, defer/recover/panic, channel ops) and at yield points inside the harness' native functions and writer; each run's (output, error, printed text) must equal a single run of a freshly built copy. (b) all 64 sequences of 3 operations over {run input 1 (plain context), run input 2 (cancellable context, never cancelled), run input 3 (deadline context), inspect = Disassemble(3)+Disassemble(-1)+UsedVars / Disassemble(\"main\")} on one artefact; in (a) one more thread inspects the artefact while the runs go on. states = distinct (point, enabled set, step) tuples",
 		Assumptions: []string{
 			"data races below instruction granularity are left to the separate free-running -race pass (companion; reported in coverage.race_companion), which can find but never prove absence",
 			"more than 3 concurrent runs and more preemptions than the bound are not explored",
@@ -162,7 +188,7 @@ func TestVerif(t *testing.T) {
 			if tier == "thorough" {
 				return 300000
 			}
-			return 25000
+			return 120000
 		},
 		Extra: sched.RaceCompanion("C10"),
 	})
